@@ -26,6 +26,7 @@ package main
 import (
 	"fmt"
 	"reflect"
+	"strconv"
 	"strings"
 
 	"github.com/go-gts/gts"
@@ -646,10 +647,54 @@ func (r *Run) c11Bytes() {
 						want = append(want, strings.Fields(p)[3])
 					}
 					r.c11CheckBuffers(line, ans, want...)
+					// the LIST handed to Concat(list...) is an argument too: the caller's slice holds the
+					// same sequences in the same places afterwards, also when a piece is empty (seeded
+					// change W9-2: empty pieces filtered out with `ss[:0]`, compacting the caller's slice)
+					if msg := c11ConcatList(parts); msg != "" {
+						r.fail(Failure{Oracle: "Concat(list...) leaves the caller's list as it was (every element, every position)", Op: line, Got: msg})
+					}
 				}
 			}
 		}
 	}
+}
+
+// c11ConcatList: Concat on a list built from the windows of `parts` (and the same list with an
+// empty sequence put at the front, in the middle and at the end); "" when every element of the
+// list reads as before the call, twice in a row.
+func c11ConcatList(parts []string) string {
+	mk := func() []gts.Sequence {
+		var ss []gts.Sequence
+		for _, p := range parts {
+			f := strings.Fields(p)
+			off, _ := strconv.Atoi(f[0])
+			n, _ := strconv.Atoi(f[1])
+			c, _ := strconv.Atoi(f[2])
+			b := decBytes(sexp{atom: f[3]})
+			ss = append(ss, gts.New(nil, nil, c11Window(b, off, n, c)))
+		}
+		return ss
+	}
+	base := mk()
+	for at := -1; at <= len(base); at++ {
+		list := mk()
+		if at >= 0 {
+			list = append(list[:at:at], append([]gts.Sequence{gts.New(nil, nil, nil)}, list[at:]...)...)
+		}
+		before := make([]string, len(list))
+		for i, x := range list {
+			before[i] = encSeq(x)
+		}
+		for round := 0; round < 2; round++ {
+			gts.Concat(list...)
+			for i, x := range list {
+				if encSeq(x) != before[i] {
+					return fmt.Sprintf("after call %d, with an empty sequence at %d: element %d of the list reads %s, was %s", round+1, at, i, encSeq(x), before[i])
+				}
+			}
+		}
+	}
+	return ""
 }
 
 var c11SentinelFeature = gts.Feature{Key: "SENTINEL", Loc: gts.Point(999)}
